@@ -156,6 +156,15 @@ func (s *Session) setConn(conn net.Conn, brw *bufio.ReadWriter) {
 	s.brw = brw
 }
 
+// connection returns the connection the session currently runs on. After a
+// MITM upgrade this is the TLS connection, not the socket it was accepted on.
+func (s *Session) connection() net.Conn {
+	s.mu.RLock()
+	defer s.mu.RUnlock()
+
+	return s.conn
+}
+
 // Get takes key and returns the associated value from the session.
 func (s *Session) Get(key string) (interface{}, bool) {
 	s.mu.RLock()
